@@ -268,7 +268,9 @@ func truncation(id string, e *enc) {
 			where := "cut-in-" + fieldAt(e.Fields, k)
 			died(id, d, rs.died, d.Name+"|"+where, "", where,
 				fmt.Sprintf("decoding the first %d of %d bytes of a valid encoding (cut falls in %s)", k, len(e.B), fieldAt(e.Fields, k)), detail)
-			done++
+			if rs.died.Kind == "fatal" || rs.died.Kind == "nonterminating" {
+				done++ // decided; abandoned / stalled decodes are not evaluations
+			}
 			continue
 		}
 		done++
@@ -382,8 +384,10 @@ func netPass(id string, e *enc, r *vlib.Rand) {
 				return x
 			}
 		}
-		done++
 		c.SetAdd("net_decoders_covered", d.Name)
+		if rs.died == nil || rs.died.Kind == "fatal" || rs.died.Kind == "nonterminating" {
+			done++ // decided; abandoned / stalled decodes are not evaluations
+		}
 		if rs.died != nil {
 			if rs.died.Kind == "nonterminating" || rs.died.Kind == "abandoned" {
 				netNT++
@@ -800,9 +804,11 @@ func hostileChunk(id string, e *enc, d *decoder, muts []mutant, pPanicked, pRetu
 		c.Inconclusive(id, "decode server could not be started: "+err.Error())
 		return
 	}
-	*pDone += int64(len(results))
 	for j := range results {
 		rs := results[j][0]
+		if rs.died == nil || rs.died.Kind == "fatal" || rs.died.Kind == "nonterminating" {
+			*pDone++ // decided; abandoned / stalled decodes are not evaluations
+		}
 		m := muts[idx[j]]
 		mb := reqs[j].b
 		cls := d.Name + "|" + m.where
